@@ -174,7 +174,7 @@ def trusted_scan(crate):
         s = crate.rd(rel)
         cut = s.find('#[cfg(test)]\nmod tests')
         body = s if cut < 0 else s[:cut]
-        for m in re.finditer(r'assume_specification(?:<[^\[]*>)?\s*\[([^\]]+)\]', body):
+        for m in re.finditer(r'assume_specification(?:<[^\[]*>)?\s*\[((?:[^\[\]]|\[[^\]]*\])+)\]', body):
             out['assume_specification'].append('%s: %s' % (rel, norm(m.group(1))))
         for m in re.finditer(r'#\[verifier::external_body\]\s*\n\s*((?:pub(?:\([a-z]+\))?\s+)?(?:const\s+[A-Z_]+|(?:broadcast\s+)?(?:proof\s+)?fn\s+\w+|struct\s+\w+))', body):
             out['external_body'].append('%s: %s' % (rel, norm(m.group(1))))
